@@ -1,3 +1,7 @@
 import LhasaV.Props.C03
 open LhasaV.Props.C03
-#print axioms expand_nil
+#print axioms lzs_decode_serialise
+#print axioms lz5_decode_serialise
+#print axioms null_identity
+#print axioms lz5_fill_eq_closed_form
+#print axioms ring_copy_refines
